@@ -179,15 +179,18 @@ def run(rep):
     rep.guarded("R-C01-grid", lambda r: rule_grid(r, sincmodel.extract_make_sincs(facts)))
     import C15
     rep.guarded("R-C15-dispatch", C15.rule_dispatch)
+    rep.guarded("R-C15-lanes", lambda r: C15.run_all_kernels(r, "R-C15-lanes"))
     rep.floor("R-C02-cutoff-upper", 2)
     rep.floor("R-C02-fft", 4)
     rep.floor("R-C02-window-table", 1 + 6 + 1 + 1 + 6 + 2)
     rep.floor("R-C01-grid", 6)
     rep.floor("R-C15-dispatch", 20)
+    rep.floor("R-C15-lanes", 55)
     rep.clause("R-C02-cutoff-upper", "the cutoff handed to every kernel constructor is at most f_cutoff when ratio ≥ 1 and at most f_cutoff·ratio when down-sampling (removing the ratio scaling → aliasing)")
     rep.clause("R-C02-fft", "FFT unit: cutoff = calculate_cutoff(min(in,out))·min(1,out/in); spectrum truncated to min(in+1,out) bins and zero-filled")
     rep.clause("R-C02-window-table", "each WindowFunction variant selects the base window named after it, X2 variants (and only those) are squared, no wildcard swallows a variant; the three base windows equal their textbook definitions; calculate_cutoff covers all variants with the documented closed form")
     rep.clause("R-C01-grid", "sinc centred at totpoints/2, argument scaled by f_cutoff/factor (shared with C01)")
+    rep.clause("R-C15-lanes", "every kernel applies all sinc_len taps of the designed filter (a dropped tail of taps destroys the window's stopband): shared with C15")
     rep.clause("R-C15-dispatch", "all kernels receive the same cutoff (shared with C15)")
     rep.not_decided += ["every dB figure, the fit constants of calculate_cutoff, image rejection: numerical properties of the filter"]
     rep.trusted += ["syn parser", "sympy"]
